@@ -307,6 +307,11 @@ class Interp:
                 o.f[fname] = self._validate_field(cls, fname, ann, kwargs[fname], node, owner)
             else:
                 o.f[fname] = self._field_default(cls, fname, dflt, node, owner)
+        if isinstance(o.f.get("values"), AArr) and isinstance(o.f.get("dims"), Obj) and isinstance(o.f["dims"].f.get("dim_list"), list):
+            try:
+                NP.adopt_labels(o.f["values"], [tuple(d.f["items"]) for d in o.f["dims"].f["dim_list"]])
+            except (KeyError, AttributeError, TypeError):
+                pass
         for v in self.p.validators(cls):
             r = self.call_fn(v, [o], {})
             if r is not o and r is not None and isinstance(r, Obj):
@@ -1027,6 +1032,8 @@ class Interp:
                     return x
                 raise AnalysisAbort(f"np.{_n} of {I.tname(x)}")
             return array
+        if name == "stack":
+            return lambda arrays, axis=0, **k: NP.stack(I.iterate(arrays), axis)
         if name == "copyto":
             def copyto(dst, src, casting=None, where=True):
                 if where is not True or not isinstance(dst, AArr):
@@ -1513,6 +1520,9 @@ class Interp:
 
     def assign(self, tgt, val, fr, node=None):
         if isinstance(tgt, ast.Name):
+            if tgt.id in fr.env.get("__globals__", ()) and fr.module is not None:
+                self.__dict__.setdefault("_module_globals", {})[(fr.module.path, tgt.id)] = val      # `global x; x = ...`
+                return
             fr.env[tgt.id] = val
         elif isinstance(tgt, ast.Attribute):
             o = self.eval(tgt.value, fr)
@@ -1664,8 +1674,35 @@ class Interp:
                     fr.env.pop(t.id, None)
                 else:
                     raise AnalysisAbort("del target")
-        elif isinstance(s, (ast.Import, ast.ImportFrom, ast.Global, ast.Nonlocal)):
-            pass
+        elif isinstance(s, ast.Import):
+            for a in s.names:
+                top = a.name if a.asname else a.name.split(".")[0]
+                target = self.p.by_dotted.get(top)
+                fr.env[(a.asname or a.name).split(".")[0]] = target if target is not None else self.resolved(("ext", top), top)
+        elif isinstance(s, ast.ImportFrom):
+            from .core import PKG
+            base = s.module or ""
+            if s.level and fr.module is not None:
+                parts = (PKG + "/" + fr.module.path).split("/")[:-1]
+                parts = parts[: len(parts) - (s.level - 1)]
+                base = ".".join(parts + ([s.module] if s.module else []))
+            target = self.p.by_dotted.get(base)
+            for a in s.names:
+                if target is not None:
+                    r = self.p.resolve_name(target, a.name)
+                    if r is None:
+                        sub_ = self.p.by_dotted.get(base + "." + a.name)
+                        if sub_ is None:
+                            raise PyRaise("ImportError", s, f"cannot import name '{a.name}' from '{base}'")
+                        fr.env[a.asname or a.name] = sub_
+                    else:
+                        fr.env[a.asname or a.name] = self.resolved(r, a.name)
+                else:
+                    fr.env[a.asname or a.name] = self.resolved(("ext", base + "." + a.name), a.name)
+        elif isinstance(s, ast.Global):
+            fr.env.setdefault("__globals__", set()).update(s.names)
+        elif isinstance(s, ast.Nonlocal):
+            raise AnalysisAbort("nonlocal is not modelled")
         else:
             raise AnalysisAbort(f"unsupported statement {type(s).__name__} (line {s.lineno})")
 
@@ -1745,6 +1782,9 @@ class Interp:
     def lookup(self, name, fr, node=None):
         if name in fr.env:
             return fr.env[name]
+        mg = self.__dict__.get("_module_globals")
+        if mg and fr.module is not None and (fr.module.path, name) in mg:
+            return mg[(fr.module.path, name)]
         if name in self.hooks:
             return self.hooks[name]
         if fr.module is not None:
